@@ -131,6 +131,43 @@ func buildC02() {
 		t2 := &wire.Template{ID: 302, Fields: []wire.Field{{ID: 1, Len: 65535, Type: "unsigned64"}}}
 		add("ipfix", "unsigned64 declared 65535 long", dg{a4, enc("ipfix", tplSet(t2))}, dg{a4, enc("ipfix", raw(302, g.Bytes(100)))})
 	}
+	// (h) sampled packet headers (sFlow raw packet header record): IPv6 behind Ethernet whose Next Header starts a
+	// chain of extension headers - every Next Header value of interest x every Hdr Ext Len octet 0..255 x what the
+	// extension header itself names as next, and IPv4 with every IHL and protocol of interest. A parser that
+	// walks such a chain must advance, whatever the length octets say.
+	{
+		nexts := []byte{0, 43, 44, 50, 51, 60, 135, 139, 140, 59, 6, 17, 58, 41, 255}
+		agent := []byte{192, 0, 2, 9}
+		mk := func(frame []byte) []byte {
+			d := &wire.SFDatagram{Version: 5, Agent: agent, Seq: 1, Samples: []wire.SFSample{{TypeWord: 1, Kind: "flow", Seq: 1,
+				Recs: []wire.SFRec{{Format: 1, Kind: "raw", Pkt: &wire.PktModel{HeaderProto: 1}, FrameLen: uint32(len(frame)), Header: frame}}}}}
+			return d.Encode()
+		}
+		for _, n1 := range nexts {
+			for _, n2 := range nexts[:9] {
+				for l := 0; l < 256; l++ {
+					if l > 3 && l%32 != 31 && l%32 != 0 && l != 254 && l != 127 && l != 128 {
+						continue // every wrap-around neighbourhood of an 8-bit (l+1)*8, plus the small values
+					}
+					f := make([]byte, 0, 128)
+					f = append(f, 0, 1, 2, 3, 4, 5, 6, 7, 8, 9, 10, 11, 0x86, 0xdd) // Ethernet, IPv6
+					f = append(f, 0x60, 0, 0, 0, 0, 72, n1, 64)                     // version, payload length, next header, hop limit
+					f = append(f, g.Bytes(32)...)                                   // addresses
+					f = append(f, n2, byte(l))                                      // first extension header: next, Hdr Ext Len
+					f = append(f, g.Bytes(6)...)                                    //   its first 8 octets
+					f = append(f, n2, byte(l), 0, 0, 0, 0, 0, 0)                    // what a zero step would read again
+					f = append(f, g.Bytes(48)...)
+					add("sflow", fmt.Sprintf("sampled IPv6 header: next header %d, extension header {next %d, length octet %d}", n1, n2, l), dg{a4, mk(f)})
+				}
+			}
+		}
+		for ihl := 0; ihl < 16; ihl++ {
+			for _, pr := range []byte{0, 1, 4, 6, 17, 41, 47, 50, 51, 255} {
+				f := append([]byte{0, 1, 2, 3, 4, 5, 6, 7, 8, 9, 10, 11, 0x08, 0x00, byte(0x40 | ihl), 0, 0, 60, 0, 0, 0, 0, 64, pr, 0, 0}, g.Bytes(72)...)
+				add("sflow", fmt.Sprintf("sampled IPv4 header: IHL %d protocol %d", ihl, pr), dg{a4, mk(f)})
+			}
+		}
+	}
 	// (g) accumulated state: an exporter that has announced 24 000 templates (three 64 KiB datagrams of one-field
 	// templates), then datagrams that are nothing but header-only data sets of ids it never announced - 368 in 1492
 	// octets, 16 000 in 64 KiB. The cost of a datagram must follow its own octets, not what the cache has grown to.
